@@ -27,7 +27,7 @@ ASSUMPTIONS = ['component classes use identity equality; each component instance
 FLOORS = {'quick': {'listing_comparisons': 20000, 'classA_histories': 400, 'joins': 3000, 'leaves': 1500, 'rejoins': 500,
                     'empty_answers': 3000, 'leave_shared_type': 500, 'strict_keyerror': 1000, 'migrations': 300, 'big_populations': 8, 'in_step_leaves_observed': 30, 'explicit_reregistration_rejected': 6, 'refused_offmap_joins': 200, 'models_completed_mid_history': 150, 'populated_world_installed_later': 80,
                     'reach:Core.SystemManager.register_component': 2000, 'reach:Core.SystemManager.deregister_component': 1000},
-          'thorough': {'listing_comparisons': 1000000, 'classA_histories': 40000}}
+          'thorough': {'listing_comparisons': 1000000, 'classA_histories': 29000}}
 EXHAUSTIVE = {}
 
 
